@@ -137,7 +137,9 @@ class Ctx:
             yield name, a, b
 
     def eq(self, name, a, b, tol=0):
-        """a == b (exactly when tol == 0, else |a-b| <= tol*sqrt(1+b^2) in R)"""
+        """a == b exactly when tol == 0; else |a-b| <= tol*(1 + max|b| over the declared input box)
+        (an absolute margin scaled by the largest magnitude b can take; used only where inexact
+        float64 constants such as unit factors are on the path)"""
         for nm, x, y in self._pairs(name, a, b):
             if self.sym:
                 if isinstance(x, SC) or isinstance(y, SC):
@@ -154,11 +156,16 @@ class Ctx:
                 if tol == 0:
                     cond = (d == 0)
                 else:
-                    cond = (d * d <= Fraction(tol) ** 2 * (1 + y * y))
+                    yb = self.ex.abs_bound(y)
+                    atol = Fraction(tol) * (1 + (yb if yb is not None else 0))
+                    cond = (d <= atol) & (d >= -atol)
                 strong = None
                 if not d.is_const():
                     strong = And(d * d >= Fraction(1, 10000) * (1 + y * y), *self._boxc(100))
-                self.check(nm, cond, strong=strong)
+                if tol == 0:
+                    self.check(nm, cond, strong=strong)
+                else:
+                    self.check(nm, cond, strong=strong, margin=(d, atol))
             else:
                 x = complex(x) if isinstance(x, (complex, np.complexfloating)) else float(x)
                 y = complex(y) if isinstance(y, (complex, np.complexfloating)) else float(y)
@@ -180,6 +187,32 @@ class Ctx:
             d = (float(fd(h)) - float(fd(-h))) / (2 * h)
             ok = abs(float(got) - d) <= max(ftol, 10 * tol) * (1 + abs(d))
             self.check(name, ok, lhs=repr(float(got)), rhs=repr(d))
+
+    def deriv_matrix(self, name, J, outs, wrts, fd, tol=0, h=1e-6, ftol=2e-4):
+        """J[i, j] must be d outs[i] / d wrts[j].  sym: chain-rule derivative of the returned terms;
+        float: central differences, fd(delta_vector) -> flat outputs recomputed by the real code."""
+        J = np.asarray(J, dtype=object if self.sym else float)
+        outs = np.asarray(outs, dtype=object if self.sym else float).reshape(-1)
+        wr = np.asarray(wrts, dtype=object if self.sym else float).reshape(-1)
+        if J.shape != (outs.size, wr.size):
+            self.check(name + ':shape', False, got=list(J.shape), want=[outs.size, wr.size])
+            return
+        if self.mode == 'sym':
+            for j in range(wr.size):
+                vid = sym_id(wr[j])
+                for i in range(outs.size):
+                    o = SR.lift(outs[i])
+                    self.eq(f'{name}[{i},{j}]', J[i, j], o.diff(vid), tol)
+        elif self.mode == 'exact':
+            self.check(name, True, skipped='derivative obligations are replayed in float mode only')
+        else:
+            for j in range(wr.size):
+                d = np.zeros(wr.size)
+                d[j] = h
+                col = (np.asarray(fd(d), dtype=float).reshape(-1) - np.asarray(fd(-d), dtype=float).reshape(-1)) / (2 * h)
+                for i in range(outs.size):
+                    ok = abs(float(J[i, j]) - col[i]) <= max(ftol, 10 * tol) * (1 + abs(col[i]))
+                    self.check(f'{name}[{i},{j}]', ok, lhs=repr(float(J[i, j])), rhs=repr(float(col[i])))
 
     def le(self, name, a, b, tol=0):
         for nm, x, y in self._pairs(name, a, b):
